@@ -18,8 +18,14 @@ save / Load with their grids, GeoNetwork.set_node_weight_type).
 
 check names are "<path>/<observable>".  Separately named checks for situations that are known or
 doubtful:  adjacency_setter/known29-N-change-node-weights (finding #29),
-save_load[gml]/node_weights (+ Spatial/Geo twins), init_edge_list/both-orientations,
-init/single-node.
+save_load[gml]/node_weights (+ Spatial/Geo twins), init_edge_list/both-orientations.
+Further paths: init_sparse_explicit_zeros / adjacency_setter_explicit_zeros (scipy inputs with stored
+zeros or duplicate coo entries), permuted_copy, and mutate_save_load[<mutator>] = save -> Load
+after public mutators on the same object (adjacency_setter, adjacency_setter_newN, set_edge_list,
+node_weights_setter, node_weights_then_adjacency, set_link_attribute, del_link_attribute, copy,
+undirected_copy, permuted_copy, loaded_then_node_weights, loaded_then_adjacency,
+FromIGraph_then_node_weights, randomly_rewire; Spatial/Geo: adjacency_setter, set_edge_list,
+node_weights_setter, set_node_weight_type).
 """
 import os
 import sys
@@ -54,7 +60,7 @@ def expected(A, directed, w):
         edges = {(int(i), int(j)) for i, j in zip(*np.nonzero(A)) if i < j}
     tot = float(sum(float(x) for x in w))
     return {"N": n, "n_links": s if directed else s // 2,
-            "link_density": s / (n * (n - 1)) if n > 1 else None,
+            "link_density": s / (n * (n - 1)) if n > 1 else (0.0 if n == 1 else None),
             "A": A, "directed": bool(directed), "edges": edges,
             "w": w, "total": tot, "mean": tot / n if n else None}
 
@@ -191,20 +197,6 @@ def run_case(case):
 
     kw = dict(directed=directed, node_weights=w, silence_level=3)
 
-    # --- single node: only construction can be asked for (density undefined)
-    if n == 1:
-        def p_single():
-            net = Network(adjacency=A, **kw)
-            compare(fails, "init", net, exp, {}, skip=())
-        ev("init/single-node")
-        try:
-            with quiet():
-                p_single()
-        except Exception as e:   # noqa
-            fails.append(("init/single-node", f"Network(adjacency=[[0]]) raises "
-                                              f"{type(e).__name__}: {e}"))
-        return {"evals": evals, "fails": fails}
-
     # --- dense
     def p_dense(conv, label):
         def f():
@@ -225,6 +217,74 @@ def run_case(case):
             net = with_attrs(Network(adjacency=M, **kw))
             compare(fails, "init_sparse", net, exp, attrs)
         guarded("init_sparse:" + fmt, f)
+
+    # --- sparse inputs carrying explicitly stored zeros, and coo inputs with duplicate entries
+    #     that sum to the 0/1 value; they denote the same matrix as the dense input
+    def zero_positions(k):
+        free = [(i, j) for i in range(n) for j in range(n) if not A[i, j]]
+        if not free:
+            return []
+        idx = rs.choice(len(free), size=min(k, len(free)), replace=False)
+        return [free[i] for i in idx]
+
+    def sparse_with_zeros(fmt, dup):
+        li, lj = np.nonzero(A)
+        zs = zero_positions(max(1, n))
+        rows = list(li) + [z[0] for z in zs]
+        cols = list(lj) + [z[1] for z in zs]
+        data = [1] * len(li) + [0] * len(zs)
+        if dup:     # duplicates: every link again with a 0, every stored zero twice
+            rows, cols, data = rows + rows, cols + cols, data + [0] * len(data)
+        order = rs.permutation(len(rows))
+        M = sp.coo_matrix((np.array(data, dtype=np.int64)[order],
+                           (np.array(rows, dtype=int)[order], np.array(cols, dtype=int)[order])),
+                          shape=(n, n))
+        if fmt != "coo":
+            M = getattr(M, "to" + fmt)()
+        return M, len(zs)
+
+    for fmt, dup in (("csc", False), ("csr", False), ("coo", False), ("coo", True), ("csc", True)):
+        def f(fmt=fmt, dup=dup):
+            M, nz = sparse_with_zeros(fmt, dup)
+            if fmt == "coo" and not dup and nz and M.nnz != int(A.sum()) + nz:
+                raise RuntimeError("harness: explicit zeros were not stored")
+            net = with_attrs(Network(adjacency=M, **kw))
+            compare(fails, "init_sparse_explicit_zeros", net, exp, attrs)
+            # the same on a live object
+            other = 1 - A
+            np.fill_diagonal(other, 0)
+            if not directed:
+                other = np.triu(other, 1)
+                other = other + other.T
+            net2 = Network(adjacency=other, **kw)
+            M2, _ = sparse_with_zeros(fmt, dup)
+            net2.adjacency = M2
+            compare(fails, "adjacency_setter_explicit_zeros", with_attrs(net2), exp, attrs)
+        guarded(f"init_sparse_explicit_zeros:{fmt}{':dup' if dup else ''}", f)
+
+    # copy of the library's own sp_A after links were removed by item assignment (stored zeros)
+    def p_spA_edit():
+        free = [(i, j) for i in range(n) for j in range(n) if i != j and not A[i, j]
+                and (directed or i < j)]
+        if not free:
+            return
+        B = A.copy()
+        for i, j in [free[k] for k in rs.choice(len(free), size=min(2, len(free)), replace=False)]:
+            B[i, j] = 1
+            if not directed:
+                B[j, i] = 1
+        big = Network(adjacency=B, directed=directed, silence_level=3)
+        for conv in ("tocsc", "tocsr", "tocoo"):
+            S = big.sp_A.copy()
+            for i, j in zip(*np.nonzero(B - A)):
+                S[i, j] = 0
+            S = getattr(S, conv)()
+            net = with_attrs(Network(adjacency=S, **kw))
+            compare(fails, "init_sparse_explicit_zeros", net, exp, attrs)
+            big.adjacency = S
+            compare(fails, "adjacency_setter_explicit_zeros", big, expected(A, directed, None), {})
+            big.adjacency = B
+    guarded("init_sparse_explicit_zeros:edited-sp_A", p_spA_edit)
 
     # --- edge list
     def p_el(as_array, with_n):
@@ -288,6 +348,19 @@ def run_case(case):
         compare(fails, "undirected_copy", net, expected(U, False, w), uattrs)
         compare(fails, "undirected_copy(source-after)", src, exp, {})
     guarded("undirected_copy", p_ucopy)
+
+    def p_pcopy():
+        src = with_attrs(Network(adjacency=A, **kw))
+        perm = rs.permutation(n)
+        net = src.permuted_copy(perm)
+        Ap = A[np.ix_(perm, perm)]
+        wp = None if w is None else np.asarray(w, dtype=float)[perm]
+        pattrs = {k: v[np.ix_(perm, perm)] for k, v in attrs.items()}
+        for name, L in pattrs.items():
+            net.set_link_attribute(name, L)
+        compare(fails, "permuted_copy", net, expected(Ap, directed, wp), pattrs)
+        compare(fails, "permuted_copy(source-after)", src, exp, attrs)
+    guarded("permuted_copy", p_pcopy)
 
     # --- mutators on a live object
     def p_setter():
@@ -368,6 +441,147 @@ def run_case(case):
             net = Network.Load(fn2, silence_level=3)
             compare(fails, "save_load[twice]", net, exp, attrs, wtol=TEXT_RTOL)
         guarded("save_load[twice]", f2)
+
+        # ---- save -> Load after public mutators on the same object: everything that save()
+        #      stores must come from the object's current fields, not from what happened to be
+        #      attached to an earlier self.graph
+        mfmts = ("graphml", "graphmlz", "pickle")
+        mcount = [int(rs.randint(3))]
+
+        def rt(net, tag):
+            fmt = mfmts[mcount[0] % 3]
+            mcount[0] += 1
+            fn = os.path.join(d, f"m_{tag}_{mcount[0]}.{fmt}")
+            net.save(fn, fileformat=fmt)
+            return Network.Load(fn, fileformat=fmt, silence_level=3), \
+                (0.0 if fmt == "pickle" else TEXT_RTOL)
+
+        def other_graph():
+            other = 1 - A
+            np.fill_diagonal(other, 0)
+            if not directed:
+                other = np.triu(other, 1)
+                other = other + other.T
+            return other
+
+        w_alt = (rs.randint(1, 33, size=n) / 8.0)
+
+        def m_adj():
+            net = with_attrs(Network(adjacency=other_graph(), **kw))
+            net.adjacency = A if rs.randint(2) else sp.csc_matrix(A)
+            with_attrs(net)
+            got, tol = rt(net, "adj")
+            compare(fails, "mutate_save_load[adjacency_setter]", got, exp, attrs, wtol=tol)
+            compare(fails, "mutate_save_load[adjacency_setter](source-after)", net, exp, attrs)
+        guarded("mutate_save_load[adjacency_setter]", m_adj)
+
+        def m_adj_newN():
+            m = n + 1 if rs.randint(2) or n < 2 else n - 1
+            C = np.ones((m, m), dtype=int) - np.eye(m, dtype=int)
+            net = Network(adjacency=C, directed=directed, node_weights=np.arange(1, m + 1) / 2.0,
+                          silence_level=3)
+            net.adjacency = A                  # N changes: weights must be given again (#29)
+            net.node_weights = w
+            with_attrs(net)
+            got, tol = rt(net, "adjN")
+            compare(fails, "mutate_save_load[adjacency_setter_newN]", got, exp, attrs, wtol=tol)
+            compare(fails, "mutate_save_load[adjacency_setter_newN](source-after)", net, exp, attrs)
+        guarded("mutate_save_load[adjacency_setter_newN]", m_adj_newN)
+
+        def m_el():
+            net = with_attrs(Network(adjacency=other_graph(), **kw))
+            net.set_edge_list(_edge_rows(A, directed, rs), n)
+            with_attrs(net)
+            got, tol = rt(net, "el")
+            compare(fails, "mutate_save_load[set_edge_list]", got, exp, attrs, wtol=tol)
+        guarded("mutate_save_load[set_edge_list]", m_el)
+
+        def m_w():
+            net = with_attrs(Network(adjacency=A, **kw))
+            got0, tol0 = rt(net, "w0")                 # a first save must not pin the weights
+            compare(fails, "mutate_save_load[node_weights_setter]", got0, exp, attrs, wtol=tol0)
+            net.node_weights = w_alt
+            got, tol = rt(net, "w1")
+            compare(fails, "mutate_save_load[node_weights_setter]", got,
+                    expected(A, directed, w_alt), attrs, wtol=tol)
+            net.node_weights = None
+            got, tol = rt(net, "w2")
+            compare(fails, "mutate_save_load[node_weights_setter]", got,
+                    expected(A, directed, None), attrs, wtol=tol)
+            # weights first, topology afterwards
+            net.node_weights = w_alt
+            net.adjacency = other_graph()
+            net.adjacency = A
+            got, tol = rt(net, "w3")
+            compare(fails, "mutate_save_load[node_weights_then_adjacency]", got,
+                    expected(A, directed, w_alt), {}, wtol=tol)
+        guarded("mutate_save_load[node_weights_setter]", m_w)
+
+        def m_la():
+            net = with_attrs(Network(adjacency=A, **kw))
+            rt(net, "la0")
+            new = {k: 2.0 * v + 1.0 for k, v in attrs.items()}
+            new["extra"] = np.asarray(rand_attr(rs, n, directed, True), dtype=float)
+            for name, L in new.items():
+                net.set_link_attribute(name, L)
+            got, tol = rt(net, "la1")
+            compare(fails, "mutate_save_load[set_link_attribute]", got, exp, new, wtol=tol)
+            net.del_link_attribute("extra")
+            got, tol = rt(net, "la2")
+            del new["extra"]
+            compare(fails, "mutate_save_load[set_link_attribute]", got, exp, new, wtol=tol)
+            if got.find_link_attribute("extra") or net.find_link_attribute("extra"):
+                fails.append(("mutate_save_load[del_link_attribute]/link_attribute",
+                              "deleted link attribute still present"))
+        guarded("mutate_save_load[set_link_attribute]", m_la)
+
+        def m_copy():
+            src = with_attrs(Network(adjacency=A, **kw))
+            rt(src, "c0")
+            cp = src.copy()
+            got, tol = rt(with_attrs(cp), "c1")
+            compare(fails, "mutate_save_load[copy]", got, exp, attrs, wtol=tol)
+            U = ((A + A.T) > 0).astype(np.int64)
+            got, tol = rt(src.undirected_copy(), "c2")
+            compare(fails, "mutate_save_load[undirected_copy]", got, expected(U, False, w), {}, wtol=tol)
+            perm = rs.permutation(n)
+            got, tol = rt(src.permuted_copy(perm), "c3")
+            compare(fails, "mutate_save_load[permuted_copy]", got,
+                    expected(A[np.ix_(perm, perm)], directed,
+                             None if w is None else np.asarray(w, dtype=float)[perm]), {}, wtol=tol)
+        guarded("mutate_save_load[copy]", m_copy)
+
+        def m_loaded():
+            src = with_attrs(Network(adjacency=A, **kw))
+            mid, _ = rt(src, "l0")
+            # the loaded object carries a graph with a stored weight attribute: mutate, save again
+            mid.node_weights = w_alt
+            got, tol = rt(mid, "l1")
+            compare(fails, "mutate_save_load[loaded_then_node_weights]", got,
+                    expected(A, directed, w_alt), attrs, wtol=max(tol, TEXT_RTOL))
+            mid.adjacency = other_graph()
+            got, tol = rt(mid, "l2")
+            compare(fails, "mutate_save_load[loaded_then_adjacency]", got,
+                    expected(other_graph(), directed, w_alt), {}, wtol=max(tol, TEXT_RTOL))
+            g = make_graph()
+            net = Network.FromIGraph(g, silence_level=3)
+            net.node_weights = w_alt
+            got, tol = rt(net, "l3")
+            compare(fails, "mutate_save_load[FromIGraph_then_node_weights]", got,
+                    expected(A, directed, w_alt), attrs, wtol=tol)
+        guarded("mutate_save_load[loaded]", m_loaded)
+
+        def m_rewire():
+            import random as pyrandom
+            net = Network(adjacency=A, **kw)
+            pyrandom.seed(int(case.get("rs", 0)))
+            net.randomly_rewire(3)
+            B = np.asarray(net.adjacency)
+            compare(fails, "mutate_save_load[randomly_rewire](object)", net, expected(B, directed, w), {})
+            got, tol = rt(net, "rw")
+            compare(fails, "mutate_save_load[randomly_rewire]", got, expected(B, directed, w), {}, wtol=tol)
+        if A.any():
+            guarded("mutate_save_load[randomly_rewire]", m_rewire)
 
     return {"evals": evals, "fails": fails}
 
@@ -482,6 +696,59 @@ def run_spatial_case(case):
                 fails.extend(sub)
                 grid_ok(f"{cls}.save_load[{fmt}]", net.grid)
             guarded(f"{cls}.save_load[{fmt}]", f)
+
+        mfmts = ("graphml", "graphmlz", "pickle")
+        LD = GeoNetwork.Load if geo else SpatialNetwork.Load
+
+        def rt(net, tag, k):
+            fmt = mfmts[(k + case.get("rs", 0)) % 3]
+            fn = (os.path.join(d, f"m_{tag}.{fmt}"), os.path.join(d, f"m_{tag}.pkl"))
+            net.save(fn, fileformat=fmt)
+            return LD(fn, fileformat=fmt, silence_level=3), (0.0 if fmt == "pickle" else TEXT_RTOL)
+
+        def other_graph():
+            other = 1 - A
+            np.fill_diagonal(other, 0)
+            if not directed:
+                other = np.triu(other, 1)
+                other = other + other.T
+            return other
+
+        w_alt = rs.randint(1, 33, size=n) / 8.0
+
+        def m_adj():
+            net = build()
+            net.node_weights = w_alt
+            net.adjacency = other_graph()
+            got, tol = rt(net, "a1", 0)
+            compare(fails, f"{cls}.mutate_save_load[adjacency_setter]", got,
+                    expected(other_graph(), directed, w_alt), {}, wtol=tol)
+            net.set_edge_list(_edge_rows(A, directed, rs), n)
+            for name, L in attrs.items():
+                net.set_link_attribute(name, L)
+            got, tol = rt(net, "a2", 1)
+            compare(fails, f"{cls}.mutate_save_load[set_edge_list]", got,
+                    expected(A, directed, w_alt), attrs, wtol=tol)
+            grid_ok(f"{cls}.mutate_save_load[set_edge_list]", got.grid)
+            net.node_weights = None
+            got, tol = rt(net, "a3", 2)
+            compare(fails, f"{cls}.mutate_save_load[node_weights_setter]", got,
+                    expected(A, directed, None), attrs, wtol=tol)
+        guarded(f"{cls}.mutate_save_load[adjacency_setter]", m_adj)
+
+        if geo:
+            def m_nwt():
+                net = build()
+                rt(net, "t0", 0)
+                for k, nwt in enumerate(("irrigation", None, "surface")):
+                    net.set_node_weight_type(nwt)
+                    if k == 1:
+                        net.adjacency = other_graph()
+                        net.adjacency = A
+                    got, tol = rt(net, f"t{k+1}", k)
+                    compare(fails, f"{cls}.mutate_save_load[set_node_weight_type]", got,
+                            expected(A, directed, geo_w(nwt)), {}, wtol=GRID_RTOL)
+            guarded(f"{cls}.mutate_save_load[set_node_weight_type]", m_nwt)
     return {"evals": evals, "fails": fails}
 
 
@@ -606,7 +873,9 @@ SCOPE = ("all labelled undirected graphs n<=4 (quick) / n<=5 (thorough) incl. n=
          "node weights None / dyadic incl. 0 / random float over 6 decades, link attributes "
          "(dyadic 'lw', float 'link_weights'); paths: dense list+5 dtypes, 5 scipy sparse formats, "
          "edge list (list/array, with/without n_nodes, library-style both orientations), igraph, "
-         "copy, undirected_copy, adjacency.setter, set_edge_list, node_weights.setter, "
+         "scipy csc/csr/coo inputs with explicitly stored zeros / duplicate coo entries / edited sp_A copies, "
+         "copy, undirected_copy, permuted_copy, adjacency.setter, set_edge_list, node_weights.setter, "
+         "save->Load (graphml/graphmlz/pickle rotating) after each public mutator, copy, Load and randomly_rewire, "
          "save->Load graphml/graphmlz/pickle/gml (+ twice), 24 / 200 SpatialNetwork/GeoNetwork "
          "cases with grids (init, edge list, set_node_weight_type, save->Load x4). Tolerances: "
          "exact for in-memory paths and pickle; rtol 1e-12 for text formats (15 significant "
@@ -634,7 +903,7 @@ def main():
     else:
         cases = make_cases(args.tier, args.seed)
 
-    nproc = 1 if (args.replay or args.tier == "quick") else min(8, os.cpu_count() or 1)
+    nproc = 1 if args.replay else min(4 if args.tier == "quick" else 8, os.cpu_count() or 1)
     if nproc > 1:
         with mp.get_context("fork").Pool(nproc) as pool:
             results = pool.imap(run_any, cases, chunksize=8)
